@@ -63,6 +63,9 @@ pub struct GenCfg {
     /// dictionary files exist before the first server start (written by hand or by an earlier version)
     #[serde(default)]
     pub preexisting_dicts: bool,
+    /// some documents are large (tens of thousands of characters)
+    #[serde(default)]
+    pub big_docs: bool,
 }
 
 pub fn doc_path(name: &str) -> String {
